@@ -94,6 +94,12 @@ impl Diagnostic for ErrorDiagnostic {
     }
 }
 
+/// The formatted message of `err` with terminal control characters neutralised: messages
+/// reflect input-derived text (keys, field names, scalar values).
+fn safe_message(formatter: &dyn MessageFormatter, err: &Error) -> String {
+    sanitize_terminal_snippet_preserve_len(formatter.format_message(err).into_owned())
+}
+
 fn build_diagnostic(
     err: &Error,
     src: Arc<NamedSource<String>>,
@@ -204,7 +210,7 @@ fn build_diagnostic(
             );
 
             ErrorDiagnostic {
-                message: formatter.format_message(err).into_owned(),
+                message: safe_message(formatter, err),
                 src,
                 labels,
                 related: Vec::new(),
@@ -217,13 +223,13 @@ fn build_diagnostic(
                 && let Some(span) = to_source_span(&src, &loc)
             {
                 labels.push(LabeledSpan::new_with_span(
-                    Some(formatter.format_message(other).into_owned()),
+                    Some(safe_message(formatter, other)),
                     span,
                 ));
             }
 
             ErrorDiagnostic {
-                message: formatter.format_message(other).into_owned(),
+                message: safe_message(formatter, other),
                 src,
                 labels,
                 related: Vec::new(),
@@ -264,7 +270,9 @@ fn build_validation_entry_diagnostic(
     let def_loc = locs.defined_location;
 
     let resolved_path = format_path_with_resolved_leaf(path_key, &resolved_leaf);
-    let base_msg = format!("validation error: {entry} for `{resolved_path}`");
+    let base_msg = sanitize_terminal_snippet_preserve_len(format!(
+        "validation error: {entry} for `{resolved_path}`"
+    ));
 
     let labels = build_validation_labels(src, ref_loc, def_loc);
 
